@@ -88,6 +88,14 @@ def run_unit(u, rec):
         it64 = t64.get(json.dumps(key))
         if it64 is None:
             continue
+        if key[0] == "leaves":
+            rec.count(states=2, transitions=2, traces=2)
+            rec.check(set(it32["leaf_dtypes"]) <= {"float32", "complex64"}, f"C19/leaf_precision/{key[1]}/float32_session",
+                      "the stepper holds precomputed arrays of another precision than the session default", got=it32["leaf_dtypes"], key=key)
+            rec.check(set(it64["leaf_dtypes"]) <= {"float64", "complex128"}, f"C19/leaf_precision/{key[1]}/x64_session",
+                      "in the x64 session the stepper holds single-precision precomputed arrays (silent fallback)", got=it64["leaf_dtypes"], key=key)
+            rec.outcome("leaves", key[1], key[4], tuple(it64["leaf_dtypes"]))
+            continue
         y32, y64 = dec(it32["y"]), dec(it64["y"])
         rec.count(states=2 * (y32.size if u["kind"] == "etdrk" else 1), transitions=2, traces=2)
         tag = "/".join(str(k) for k in key[:2])
